@@ -880,6 +880,19 @@ fn main() {
                     all_ops(&mut o, &mut emit, ty, &sq(&a), &sq(&b), true, &["gcd", "gcdx", "lcm"]);
                 }
             }
+            // large common factor: a = g*u, b = g*v with |g| ~ 2^(w/2-6), small cofactors: every intermediate of the
+            // algorithms (a*conj(b), the norms, x * (y / g)) stays below 2^(w-4), while a formula that multiplies before
+            // dividing (x * y / g) leaves the word - an abort here is a regression, not an inherent limit of the width
+            for (ty, d, gbits, n) in [("gi64", -1, 26u32, 60usize), ("ei64", -3, 26, 60), ("gi128", -1, 58, 30), ("ei128", -3, 58, 30),
+                                      ("gbig", -1, 58, 20), ("ebig", -3, 58, 20)] {
+                for _ in 0..n * scale {
+                    let g = rand_q(&mut r, gbits);
+                    let u = rand_q(&mut r, 2);
+                    let v = rand_q(&mut r, 2);
+                    let (a, b) = (qmul(d, &g, &u), qmul(d, &g, &v));
+                    all_ops(&mut o, &mut emit, ty, &sq(&a), &sq(&b), true, &["gcd", "lcm", "divides"]);
+                }
+            }
             for (ty, d) in [("gbig", -1), ("ebig", -3)] {
                 for _ in 0..(4 * scale) {
                     let (a, b) = quad_pair(&mut r, d, 500);
